@@ -63,20 +63,29 @@ class Location(Adapter):
 
         kw = {"lon": core.to_float_array([unfr(x) for x in case["lon"]]),
               "lat": core.to_float_array([unfr(x) for x in case["lat"]])}
+        shape = None
+        if "shape_lon" in case:            # multi-dimensional arrays (C order): same size, maybe different shapes
+            kw["lon"] = kw["lon"].reshape(tuple(case["shape_lon"]))
+            kw["lat"] = kw["lat"].reshape(tuple(case["shape_lat"]))
+            shape = tuple(case["shape_lon"])
         if case["bbox"] is not None:
             kw["bbox"] = tuple(float(unfr(x)) for x in case["bbox"])
         if case["rm"] is not None:
             rm = unfr(case["rm"])
             assert F(float(rm)) == rm
             kw["range_max"] = float(rm)
-        return core.call_impl(qartod.location_test, kw)
+        return core.call_impl(qartod.location_test, kw, expect_shape=shape)
 
     def _expr(self, fn, case):
         lon = [unfr(x) for x in case["lon"]]
         lat = [unfr(x) for x in case["lat"]]
         bbox = "location_default_bbox" if case["bbox"] is None else clist([q(unfr(x)) for x in case["bbox"]])
-        return (f"({fn} (geod_of_table {hop_table(lon, lat)}) {bbox} {opt(unfr(case['rm']), q)} "
-                f"{obs_list(lon)} {obs_list(lat)})")
+        e = (f"({fn} (geod_of_table {hop_table(lon, lat)}) {bbox} {opt(unfr(case['rm']), q)} "
+             f"{obs_list(lon)} {obs_list(lat)})")
+        if "shape_lon" in case:
+            sh = lambda l: clist([f"{int(k)}%nat" for k in l])
+            e = f"(shape_guard {sh(case['shape_lon'])} {sh(case['shape_lat'])} {e})"
+        return e
 
     def model(self, case):
         return self._expr("location_model", case)
@@ -189,4 +198,13 @@ def gen_location(tier, rng):
             for rm in (None, F(1)):
                 cases.append({"lon": frs([p[0]] * nlon), "lat": frs([p[1]] * nlat),
                               "bbox": None if bbox is None else frs(bbox), "rm": core.fr(rm)})
+    # multi-dimensional arrays: equal shapes are accepted (flags in lon's shape), different shapes are
+    # rejected even when the element counts agree
+    box = (F(-10), F(-5), F(20), F(15))
+    tr6 = [(F(7), F(2)), (F(30), F(2)), (F(7) + TINY, F(2)), (None, None), (F(-3, 2), F(11)), (F(7), F(40))]
+    for sl, sa in [((2, 3), (2, 3)), ((3, 2), (3, 2)), ((2, 3), (3, 2)), ((2, 3), (6,)), ((6,), (2, 3)),
+                   ((1, 6), (6, 1)), ((6, 1), (6, 1)), ((1, 2, 3), (2, 3)), ((6,), (6,))]:
+        for rm in (None, F(1), F(10) ** 8):
+            cases.append({"lon": frs([p[0] for p in tr6]), "lat": frs([p[1] for p in tr6]), "bbox": frs(box),
+                          "rm": core.fr(rm), "shape_lon": list(sl), "shape_lat": list(sa)})
     return cases
